@@ -74,12 +74,32 @@ def run(ch, build, hooks=(hook,), prop="C10"):
         outs = conn.run_scenarios(scns)
         hist.replay(ch, scns, outs, hooks, prop.lower())
         ch.extra["scripts_%s" % ("session" if session else "sessionless")] = len(scripts)
+    if prop == "C10":
+        real_udp_loss(ch)
     ch.extra["depth"] = depth
     ch.exhaustive = True
     return ch.finish(rule=RULE, assumptions=[
         "the in-memory transport returns an error immediately for a lost reply (no wall-clock wait); back-off replaced by a zero back-off through the verif hook",
         "the simulated BMC (harness/sim, stdlib-only) is validated against the Coq SpecBmc in C01",
     ])
+
+
+def real_udp_loss(ch):
+    """outside a session a lost reply is retried until the context expires: over real UDP with the library's own back-off,
+    the first k replies are lost, then the BMC answers; the answer must be returned well inside the context"""
+    import json
+    reqs = [{"call": "sessionless", "fault": "blackhole", "from": 0, "until": k, "timeout_ms": 100, "deadline_ms": 4000} for k in (1, 2)]
+    reqs += [{"call": "sessionless", "fault": "busy", "from": 0, "until": 2, "timeout_ms": 100, "deadline_ms": 4000}]
+    outs = [core.run_lines(core.HARNESS, ["c13 " + json.dumps(r, separators=(",", ":"))], 60)[0] for r in reqs]
+    for rq, o in zip(reqs, outs):
+        res = json.loads(o)
+        ch.note_case("c10-real-udp", json.dumps(rq))
+        if res.get("setup"):
+            ch.corr_break({"kind": "setup"}, {"request": rq, "result": res}); continue
+        if res["err"] != "nil" or res["datagrams"] != rq["until"] + 1:
+            ch.violation({"kind": "c10", "conn": "sessionless", "family": "real-udp-loss"},
+                         {"request": rq, "result": res, "what": "after %d unanswered / temporary attempts the genuine answer must be returned "
+                          "(expected %d transmissions)" % (rq["until"], rq["until"] + 1)})
 
 
 def replay(ch, build, path):
